@@ -52,6 +52,30 @@ package main
 //	                             of records; then, only if fewer records than failing closers were there, the harness waits
 //	                             up to 300 ms for records that arrive AFTER the return.
 //	                             observation  calls=… done=… reports=<records complete when Close returned>
+//	closec <n> <errmask> <groups> <seed>
+//	                             as `close`, plus groups of closers whose component NAMES DIFFER ONLY IN LETTER CASE. groups =
+//	                             tokens joined by `.` (`-` = none), a token = kind + count (2-4) + order. Kinds: `n` closers of
+//	                             one type that name themselves (Naming()) `orders` / `Orders` / `ORDERS` / `oRDERS`; `t` closers
+//	                             of the types pool / Pool / POOL / pOOL of the package internal/kase, named by the container
+//	                             after their types; `m` the type-named closer kase.Hub (`verifharness/internal/kase/Hub`) and
+//	                             closers that name themselves `…/kase/hub`, `…/kase/HUB`, `…/kase/hUB`. Which spellings take
+//	                             part is drawn from the seed; order `a`: registered in the drawn order, `d`: in the reverse
+//	                             order (positions among the other components drawn from the seed). All these names are
+//	                             different strings, every one of them is accepted as a registered component, every one of
+//	                             them is a closer. errmask: bits 0..n-1 the ordinary closers, then the members of the groups in
+//	                             token order, within a group in registration order.
+//	                             observation as `close` (n + members of the groups entries)
+//	closeb <n> <errmask> <rounds> <seed>
+//	                             (C20) `close` under the library's BUILT-IN logger (no logger installed through SetLogger),
+//	                             at the level at which a failing closer is reported, its output redirected to a scratch file
+//	                             (os.Stderr swapped while syslog.Level(LvError) builds the logger; always run in a fresh child
+//	                             process, before the first App of the process has logged). The failing closers (errmask) wait
+//	                             for each other inside Close() and return their errors — each with its own long message — at
+//	                             the same moment, so the goroutines of App.Close report them through the one cached
+//	                             "Application" logger at once. First a shutdown in which ONE closer fails alone (how often its
+//	                             message appears in the output is the reference), then <rounds> fresh Apps.
+//	                             observation  calls=… done=… intact=<failing closers whose message stands in the output, whole,
+//	                             as often as that of a closer failing alone>
 //	cstart <hist> <nops> <sync> <trials> <r>x<m> <r>x<m> …
 //	                             CONCURRENT starts of different Apps in one process (always in a fresh child process, because
 //	                             app.Settings is process-global): first the app.Settings history `hist` (`1.1.1` = three calls
@@ -108,6 +132,11 @@ package main
 //   closew: as close, and no closer had to give up waiting for its peers to be invoked           (close-slow-blocks-others)
 //   closea/closed: as close — every REGISTERED closer component, whatever it is wired with, whatever its name, whatever its
 //          type prints like: counter = 1 and completion flag set at return                        (close-not-all-once)
+//   closec: as close — the registered closers are told apart by their exact names                   (close-not-all-once)
+//   closeb: as close; no race report; and what the concurrently failing closers' goroutines wrote through the built-in
+//          logger is what they would have written one after the other: every failure message whole, as often as for a
+//          closer that fails alone (two goroutines formatting into shared memory lose, double or mix lines)
+//                                                                                  (race, close-log-garbled)
 //   closel: as close, and the closing phase is over when Close returns: no record of a closer goroutine reaches the user's
 //          logger after App.Close has returned (such a goroutine is still running, unordered with everything the caller does
 //          next)                                                                                (close-report-after-return)
@@ -149,6 +178,7 @@ import (
 
 	dupa "verifharness/internal/dupa/conn"
 	dupb "verifharness/internal/dupb/conn"
+	"verifharness/internal/kase"
 	"verifharness/internal/hx"
 )
 
@@ -475,6 +505,18 @@ func closeCorpus(w *hx.Writer) {
 	w.Put(runCloseD(1, 0, "lt.qs", 31, 5))
 	w.Put(runCloseD(6, 0x15, "px.nc.lx.qx", 32, 10))
 	w.Put(runCloseD(4, 0, "-", 33, 5))
+	// closers whose names differ only in letter case: two self-named ones alone, in both registration orders; two types of one
+	// spelling; the type-named Hub and a self-named `…/kase/hub`; four spellings among other closers; every kind at once
+	w.Put(runCloseC(0, 0, "n2a", 34, 0))
+	w.Put(runCloseC(0, 0, "n2d", 35, 0))
+	w.Put(runCloseC(0, 0, "t2a", 36, 0))
+	w.Put(runCloseC(0, 0, "t2d", 37, 0))
+	w.Put(runCloseC(2, 0, "m2a", 38, 5))
+	w.Put(runCloseC(2, 4, "m2d", 39, 5))
+	w.Put(runCloseC(5, 0x1A5, "n4a", 40, 10))
+	w.Put(runCloseC(3, 0, "t4d", 41, 10))
+	w.Put(runCloseC(4, 0x7FF, "n3d.t2a.m2a", 42, 10))
+	w.Put(runCloseC(6, 0x09, "-", 43, 5))
 }
 
 func closeGen(rng *hx.Rng, n int, tier string, w *hx.Writer) {
@@ -542,6 +584,10 @@ func closeGen(rng *hx.Rng, n int, tier string, w *hx.Writer) {
 	for i := 0; i < n/8; i++ {
 		w.Put(genCloseA(rng.Fork()))
 		w.Put(genCloseD(rng.Fork()))
+	}
+	// a further kind, appended: n/8 cases of closers whose names differ only in letter case
+	for i := 0; i < n/8; i++ {
+		w.Put(genCloseC(rng.Fork()))
 	}
 }
 
@@ -1105,6 +1151,355 @@ func genCloseD(r *hx.Rng) hx.Case {
 		toks = append(toks, string([]byte{dupKinds[j], "cxst"[r.Intn(4)]}))
 	}
 	return runCloseD(nc, mask, strings.Join(toks, "."), r.U64()%1000000, 10)
+}
+
+// ---------------------------------------------------------------- closec: closers whose names differ only in letter case
+
+var (
+	closecWords = []string{"orders", "Orders", "ORDERS", "oRDERS"}
+	// member 0 of an `m` group is the type-named closer kase.Hub; the others name themselves
+	closecHubs = []string{kase.HubName, "verifharness/internal/kase/hub", "verifharness/internal/kase/HUB", "verifharness/internal/kase/hUB"}
+)
+
+type caseTok struct {
+	kind  byte // n t m
+	count int  // 2..4
+	order byte // a d
+}
+
+func parseCaseGroups(s string) ([]caseTok, bool) {
+	if s == "-" {
+		return nil, true
+	}
+	var out []caseTok
+	seen := map[byte]bool{}
+	for _, t := range strings.Split(s, ".") {
+		if len(t) != 3 || !strings.ContainsRune("ntm", rune(t[0])) || t[1] < '2' || t[1] > '4' || !strings.ContainsRune("ad", rune(t[2])) || seen[t[0]] {
+			return nil, false
+		}
+		seen[t[0]] = true
+		out = append(out, caseTok{t[0], int(t[1] - '0'), t[2]})
+	}
+	return out, len(out) > 0
+}
+
+// runCloseC: see the header (`closec`).
+func runCloseC(n int, mask uint64, groups string, seed uint64, maxDelayMs int) hx.Case {
+	concQuiet()
+	scn := fmt.Sprintf("closec %d %d %s %d", n, mask, groups, seed)
+	toks, ok := parseCaseGroups(groups)
+	total := n
+	for _, t := range toks {
+		total += t.count
+	}
+	if !ok || n < 0 || n > 40 || mask>>uint(total) != 0 {
+		return hx.Case{Scn: scn, Obs: "bad-line", Oracle: "FAIL bad-line"}
+	}
+	rng := hx.NewRng(seed ^ 0xC105EC)
+	delay := func() time.Duration {
+		if maxDelayMs > 0 && rng.P(1, 2) {
+			return time.Duration(rng.Intn(maxDelayMs*1000+1)) * time.Microsecond
+		}
+		return 0
+	}
+	var comps []any
+	var samplers []closeSampler
+	var whats []string
+	nfail := 0
+	for i := 0; i < n; i++ {
+		c := &vCloser{N: fmt.Sprintf("vc%03d", i), delay: delay(), fail: bit(mask, i)}
+		if c.fail {
+			nfail++
+		}
+		comps = append(comps, c)
+		samplers = append(samplers, func() (int32, int32) { return atomic.LoadInt32(&c.calls), atomic.LoadInt32(&c.done) })
+		whats = append(whats, fmt.Sprintf("ordinary closer %q", c.N))
+	}
+	k := n
+	tags := []string{"close", "names-differ-only-in-case"}
+	for _, t := range toks {
+		// which spellings take part (drawn from the seed), in registration order
+		var idx []int
+		if t.kind == 'm' {
+			idx = append(idx, 0)
+			r := rng.Intn(3)
+			for j := 0; j < t.count-1; j++ {
+				idx = append(idx, 1+(r+j)%3)
+			}
+		} else {
+			r := rng.Intn(4)
+			for j := 0; j < t.count; j++ {
+				idx = append(idx, (r+j)%4)
+			}
+		}
+		if t.order == 'd' {
+			for a, b := 0, len(idx)-1; a < b; a, b = a+1, b-1 {
+				idx[a], idx[b] = idx[b], idx[a]
+			}
+		}
+		at := 0
+		for _, v := range idx {
+			fail := bit(mask, k)
+			if fail {
+				nfail++
+			}
+			var comp any
+			switch {
+			case t.kind == 't' || (t.kind == 'm' && v == 0):
+				st := &kase.State{Delay: delay(), Fail: fail}
+				if t.kind == 't' {
+					comp = kase.NewPool(v, st)
+					whats = append(whats, fmt.Sprintf("closer of the type kase.%s, component name %q", kase.PoolVariants[v], "verifharness/internal/kase/"+kase.PoolVariants[v]))
+				} else {
+					comp = &kase.Hub{St: st}
+					whats = append(whats, fmt.Sprintf("closer of the type kase.Hub, component name %q", kase.HubName))
+				}
+				samplers = append(samplers, st.Sample)
+			default:
+				name := closecWords[v]
+				if t.kind == 'm' {
+					name = closecHubs[v]
+				}
+				c := &vCloser{N: name, delay: delay(), fail: fail}
+				comp = c
+				samplers = append(samplers, func() (int32, int32) { return atomic.LoadInt32(&c.calls), atomic.LoadInt32(&c.done) })
+				whats = append(whats, fmt.Sprintf("closer that names itself %q", name))
+			}
+			// registered after the previous member of its group, anywhere among the other components
+			at += rng.Intn(len(comps) - at + 1)
+			comps = append(comps[:at], append([]any{comp}, comps[at:]...)...)
+			at++
+			k++
+		}
+		tags = append(tags, fmt.Sprintf("case-group-%c=%d%c", t.kind, t.count, t.order))
+	}
+	tags = append(tags, fmt.Sprintf("closers=%s", bucket(k)), fmt.Sprintf("failing=%s", bucket(nfail)), fmt.Sprintf("case-groups=%d", len(toks)))
+	if len(toks) == 0 {
+		tags = append(tags, "trivial")
+	}
+	a := app.NewApp()
+	var err error
+	if out := withWatchdog(20*time.Second, func() { err = a.Run(app.SetComponents(comps...), app.SetConfigLoader()) }); out != "" || err != nil {
+		return hx.Case{Scn: scn, Obs: "run-" + out + "-failed", Oracle: "FAIL close-run-failed " + fmt.Sprint(err), Tags: tags}
+	}
+	obs, oracle, _ := closeAndSample(a, samplers, func(i int) string { return whats[i] })
+	return hx.Case{Scn: scn, Obs: obs, Oracle: oracle, Tags: tags}
+}
+
+func genCloseC(r *hx.Rng) hx.Case {
+	nc := r.Intn(9)
+	kinds := []byte("ntm")
+	k := 1
+	if r.P(1, 3) {
+		k = 2 + r.Intn(2)
+	}
+	var toks []string
+	total := nc
+	for _, j := range r.Perm(len(kinds))[:k] {
+		cnt := 2
+		if r.P(1, 3) {
+			cnt = 3 + r.Intn(2)
+		}
+		total += cnt
+		toks = append(toks, fmt.Sprintf("%c%d%c", kinds[j], cnt, "ad"[r.Intn(2)]))
+	}
+	all := uint64(1)<<uint(total) - 1
+	var mask uint64
+	switch r.Intn(3) {
+	case 1:
+		mask = r.U64() & all
+	case 2:
+		mask = all
+	}
+	return runCloseC(nc, mask, strings.Join(toks, "."), r.U64()%1000000, 10)
+}
+
+// ---------------------------------------------------------------- closeb: the closing phase under the built-in logger
+
+// closebSink: where the library's own logger writes in a closeb process. The built-in logger takes os.Stderr at the moment it
+// is built (syslog.New); syslog.Level(lv) builds it anew — so os.Stderr is a scratch file for the duration of that one call.
+// No logger is installed through SetLogger. The file is unlinked at once and read back through the descriptor.
+var closebSink struct {
+	once sync.Once
+	f    *os.File
+	off  int64
+}
+
+func closebInit() {
+	closebSink.once.Do(func() {
+		f, err := os.CreateTemp("", "verif-closeb")
+		if err != nil {
+			return
+		}
+		_ = os.Remove(f.Name())
+		saved := os.Stderr
+		os.Stderr = f
+		syslog.Level(syslog.LvError) // a failing closer is reported at the error level
+		os.Stderr = saved
+		closebSink.f = f
+	})
+}
+
+// closebNew returns what the logger has written since the last call.
+func closebNew() string {
+	f := closebSink.f
+	if f == nil {
+		return ""
+	}
+	st, err := f.Stat()
+	if err != nil || st.Size() <= closebSink.off {
+		return ""
+	}
+	buf := make([]byte, st.Size()-closebSink.off)
+	n, _ := f.ReadAt(buf, closebSink.off)
+	closebSink.off += int64(n)
+	return string(buf[:n])
+}
+
+type vBGate struct {
+	n       int32
+	entered int32
+	open    chan struct{}
+}
+
+// vBCloser: a closer with its own long failure message; the failing closers of one App return together
+type vBCloser struct {
+	N     string
+	msg   string
+	fail  bool
+	g     *vBGate
+	calls int32
+	done  int32
+}
+
+func (c *vBCloser) Naming() string { return c.N }
+func (c *vBCloser) Close() error {
+	first := atomic.AddInt32(&c.calls, 1) == 1
+	if !c.fail {
+		atomic.StoreInt32(&c.done, 1)
+		return nil
+	}
+	if first && atomic.AddInt32(&c.g.entered, 1) == c.g.n {
+		close(c.g.open)
+	}
+	t := time.NewTimer(time.Second)
+	select {
+	case <-c.g.open:
+		t.Stop()
+	case <-t.C:
+	}
+	atomic.StoreInt32(&c.done, 1)
+	return errors.New(c.msg)
+}
+
+const closebLateWait = 300 * time.Millisecond
+
+// runCloseB: see the header (`closeb`). Needs a process in which no App has logged yet.
+func runCloseB(n int, mask uint64, rounds int, seed uint64) hx.Case {
+	scn := fmt.Sprintf("closeb %d %d %d %d", n, mask, rounds, seed)
+	if n < 0 || n > 62 || mask>>uint(n) != 0 || rounds < 1 || rounds > 200 {
+		return hx.Case{Scn: scn, Obs: "bad-line", Oracle: "FAIL bad-line"}
+	}
+	closebInit()
+	nfail := 0
+	for i := 0; i < n; i++ {
+		if bit(mask, i) {
+			nfail++
+		}
+	}
+	tags := []string{"close", "closing-phase-under-built-in-logger", fmt.Sprintf("closers=%s", bucket(n)), fmt.Sprintf("failing-together=%s", bucket(nfail))}
+	if nfail < 2 {
+		tags = append(tags, "trivial")
+	}
+	message := func(round, i int) string {
+		return "BEGIN" + strings.Repeat(fmt.Sprintf("<closer-%02d-round-%02d-of-%d>", i, round, seed), 6) + "END"
+	}
+	start := func(comps []any) (*app.App, *hx.Case) {
+		a := app.NewApp()
+		var err error
+		if out := withWatchdog(20*time.Second, func() { err = a.Run(app.SetComponents(comps...), app.SetConfigLoader()) }); out != "" || err != nil {
+			return nil, &hx.Case{Scn: scn, Obs: "run-" + out + "-failed", Oracle: "FAIL close-run-failed " + fmt.Sprint(err), Tags: tags}
+		}
+		return a, nil
+	}
+	// the reference: one closer that fails alone
+	ref := 0
+	{
+		c := &vBCloser{N: "vb-alone", msg: message(-1, 0), fail: true, g: &vBGate{n: 1, open: make(chan struct{})}}
+		a, bad := start([]any{c})
+		if bad != nil {
+			return *bad
+		}
+		closebNew()
+		if out := withWatchdog(10*time.Second, func() { a.Close() }); out != "" {
+			return hx.Case{Scn: scn, Obs: out, Oracle: "FAIL close-" + out + " App.Close did not return normally", Tags: tags}
+		}
+		ref = strings.Count(closebNew(), c.msg)
+		if ref == 0 {
+			return hx.Case{Scn: scn, Obs: "no-log", Oracle: "FAIL bad-line the built-in logger's report of a failing closer does not reach the redirected output " +
+				"(a closeb scenario needs a fresh process)", Tags: tags}
+		}
+	}
+	obs, oracle := "", ""
+	for round := 0; round < rounds && oracle == ""; round++ {
+		g := &vBGate{n: int32(nfail), open: make(chan struct{})}
+		closers := make([]*vBCloser, n)
+		comps := make([]any, 0, n)
+		var samplers []closeSampler
+		for i := range closers {
+			c := &vBCloser{N: fmt.Sprintf("vb%03d", i), msg: message(round, i), fail: bit(mask, i), g: g}
+			closers[i] = c
+			comps = append(comps, c)
+			samplers = append(samplers, func() (int32, int32) { return atomic.LoadInt32(&c.calls), atomic.LoadInt32(&c.done) })
+		}
+		a, bad := start(comps)
+		if bad != nil {
+			return *bad
+		}
+		closebNew()
+		output := ""
+		// first of all: what the logger has written when Close has returned
+		o, orc, out := closeAndSample(a, samplers, func(i int) string { return "component " + closers[i].N }, func() { output = closebNew() })
+		if out != "" {
+			return hx.Case{Scn: scn, Obs: o, Oracle: orc, Tags: tags}
+		}
+		count := func() (intact, worst, worstN int) {
+			worst = -1
+			for i, c := range closers {
+				if !c.fail {
+					continue
+				}
+				if k := strings.Count(output, c.msg); k == ref {
+					intact++
+				} else if worst < 0 {
+					worst, worstN = i, k
+				}
+			}
+			return
+		}
+		intact, worst, worstN := count()
+		obs = fmt.Sprintf("%s intact=%d", o, intact)
+		oracle = orc
+		if intact < nfail && oracle == "" {
+			// incomplete: do the missing reports arrive now, after Close has returned (closer goroutines still running)?
+			deadline := time.Now().Add(closebLateWait)
+			late := intact
+			for time.Now().Before(deadline) && late < nfail {
+				time.Sleep(2 * time.Millisecond)
+				output += closebNew()
+				late, _, _ = count()
+			}
+			if late == nfail {
+				oracle = fmt.Sprintf("FAIL close-report-after-return round %d: %d of %d closers failed together; when App.Close returned the built-in logger had written the reports of %d of them, "+
+					"the others arrived within %v AFTER the return: goroutines of the closing phase were still running when Close returned", round, nfail, n, intact, closebLateWait)
+			} else {
+				oracle = fmt.Sprintf("FAIL close-log-garbled round %d: %d of %d closers failed at the same moment, each with its own message; the output of the built-in logger holds the whole message "+
+					"of only %d of them as often as for a closer that fails alone (%d time(s)); the message of closer %d (%s) stands there %d time(s): the goroutines of App.Close that "+
+					"reported through the shared \"Application\" logger overwrote each other's lines", round, nfail, n, intact, ref, worst, closers[worst].N, worstN)
+			}
+		}
+	}
+	return hx.Case{Scn: scn, Obs: obs, Oracle: oracle, Tags: tags}
 }
 
 // ---------------------------------------------------------------- cstart: concurrent starts of different Apps (C13)
@@ -1947,6 +2342,10 @@ func runLine(scn string, closeDelayMs int) hx.Case {
 		return runCloseD(int(num(1)), num(2), f[3], num(4), closeDelayMs)
 	case len(f) == 5 && f[0] == "closel":
 		return runCloseL(int(num(1)), num(2), int(num(3)), num(4), 3)
+	case len(f) == 5 && f[0] == "closec":
+		return runCloseC(int(num(1)), num(2), f[3], num(4), closeDelayMs)
+	case len(f) == 5 && f[0] == "closeb":
+		return runCloseB(int(num(1)), num(2), int(num(3)), num(4))
 	case len(f) == 3 && f[0] == "gmor":
 		return runGmor(int(num(1)), int(num(2)))
 	case len(f) == 4 && f[0] == "gscan":
@@ -2847,6 +3246,9 @@ func concCorpus(w *hx.Writer) {
 	w.Put(runGmor(16, 150))
 	w.Put(runGmor(1, 5))
 	runInChild([]string{"gscan 32 4 1", "gscan 48 4 2", "gscan 3 6 3"}, w)
+	// the closing phase under the built-in logger (a fresh process: the logger is built on the scratch file before the first
+	// App logs): 12 / 24 closers that all fail at the same moment; some failing among others; one; nobody
+	runInChild([]string{"closeb 12 4095 4 1", "closeb 24 16777215 3 2", "closeb 16 42405 3 3", "closeb 2 3 6 4", "closeb 5 4 2 5", "closeb 3 0 1 6"}, w)
 }
 
 func concGen(rng *hx.Rng, n int, tier string, w *hx.Writer) {
@@ -2969,11 +3371,34 @@ func concGen(rng *hx.Rng, n int, tier string, w *hx.Writer) {
 		}
 		runInChild(ls, w)
 	}
+	// (a-5) the closing phase under the built-in logger, 8-24 closers failing together: one fresh child process for the
+	// batch (quick 4, thorough 16 lines)
+	{
+		nl, rounds := 4, 4
+		if tier == "thorough" {
+			nl, rounds = 16, 12
+		}
+		var ls []string
+		for i := 0; i < nl; i++ {
+			r := rng.Fork()
+			nc := 8 + r.Intn(17)
+			all := uint64(1)<<uint(nc) - 1
+			mask := all
+			if r.P(1, 3) {
+				mask = (r.U64() | r.U64()) & all // about three quarters of them
+				if mask&(mask-1) == 0 {
+					mask = all
+				}
+			}
+			ls = append(ls, fmt.Sprintf("closeb %d %d %d %d", nc, mask, rounds, r.U64()%1000000))
+		}
+		runInChild(ls, w)
+	}
 }
 
 func concReplay(scn string, w *hx.Writer) {
 	f := strings.Fields(scn)
-	if len(f) > 0 && (((f[0] == "scan" || f[0] == "fstart" || f[0] == "gscan") && raceEnabled) || f[0] == "cstart" || f[0] == "closel") {
+	if len(f) > 0 && (((f[0] == "scan" || f[0] == "fstart" || f[0] == "gscan") && raceEnabled) || f[0] == "cstart" || f[0] == "closel" || f[0] == "closeb") {
 		runInChild([]string{scn}, w)
 		return
 	}
